@@ -257,6 +257,7 @@ def run(M, c):
     if k == "dates":
         n = 0
         for o in range(c["lo"], c["hi"] + 1):
+            M.progress()
             d = dt.date.fromordinal(o)
             if c["mode"] == "monthends":
                 nxt = dt.date.fromordinal(min(o + 1, dt.date.max.toordinal()))
@@ -276,6 +277,7 @@ def run(M, c):
         r = random.Random(c["seed"])
         o_lo, o_hi = dt.date(1583, 1, 1).toordinal(), dt.date(9999, 12, 31).toordinal()
         for i in range(c["n"]):
+            M.progress()
             d = dt.date.fromordinal(r.randrange(o_lo, o_hi + 1))
             if i % 3 == 0:
                 import calendar
@@ -340,15 +342,18 @@ def run(M, c):
         return
     if k == "rejects":
         for y in c["years"]:
+            M.progress()
             for s, tag in iso.invalid_dates(y):
                 judge_reject(M, s, tag)
             M.cls("reject", y % 400, dt.date(y, 12, 28).isocalendar()[1])
         for s, tag in iso.invalid_times():
+            M.progress()
             judge_reject(M, s, tag)
         return
     if k == "roundtrips":
         r = random.Random(c["seed"])
         for i in range(c["n"]):
+            M.progress()
             u = gen.random_instant(r, 1583)
             if i % 2:
                 u = u // US * US
